@@ -54,7 +54,7 @@ def _run_cvc5(smt2, timeout_ms):
     return r, time.time() - t0
 
 
-def _work(item):
+def _work1(item):
     idx, smt2, must, use_cvc5, both, hinted = item[:6]
     relaxed = item[6] if len(item) > 6 else None
     qf = item[7] if len(item) > 7 else None
@@ -66,6 +66,17 @@ def _work(item):
         r, t, model = _run_z3(hinted, 4000, True)
         if r == 'sat':
             return idx, r, t, model, 'z3'
+    if must != 'valid' and qf is not None and ('(forall' in smt2 or '(lambda' in smt2):
+        # vacuity guards over quantified premises: decide the quantifier-free part first (unsat there is unsat outright;
+        # sat there is the accepted answer when the full query stays unknown), then give the full query a short try
+        rq, tq, mq = _run_z3(qf, 5000, True)
+        if rq == 'unsat':
+            return idx, 'unsat', tq, None, 'z3(quantifier-free part)'
+        if rq == 'sat':
+            r, t, model = _run_z3(smt2, 2000, True)
+            if r in ('sat', 'unsat'):
+                return idx, r, tq + t, model, 'z3'
+            return idx, 'sat', tq + t, mq, 'z3(quantifier-free part)'
     t_pre = 0.0
     if must == 'valid' and ('(forall' in smt2 or '(lambda' in smt2):
         r0, t_pre, _ = _run_z3(smt2, min(Z3_TIMEOUT_MS, 6000), False, ematch_only=True)
@@ -91,6 +102,29 @@ def _work(item):
             r, backend = 'disagree', 'z3+cvc5'
         elif r2 == r:
             backend = 'z3+cvc5'
+    return idx, r, t, model, backend
+
+
+SECOND_Z3_MS = int(os.environ.get('PYVC_Z3_SECOND_MS', '60000'))
+SECOND_CVC5_MS = int(os.environ.get('PYVC_CVC5_SECOND_MS', '60000'))
+
+
+def _work(item):
+    """first the normal budgets; an obligation still undecided gets one more try with generous budgets, so that a
+    verdict does not flip to `unknown` merely because the machine is busy (timeouts are wall-clock)"""
+    idx, r, t, model, backend = _work1(item)
+    if r in ('sat', 'unsat') or r == 'disagree' or not SECOND_Z3_MS:
+        return idx, r, t, model, backend
+    smt2, must = item[1], item[2]
+    r2, t2, m2 = _run_z3(smt2, SECOND_Z3_MS, True)
+    t += t2
+    if r2 in ('sat', 'unsat'):
+        return idx, r2, t, m2, 'z3(second try)'
+    if '(lambda' not in smt2:
+        r3, t3 = _run_cvc5(smt2, SECOND_CVC5_MS)
+        t += t3
+        if r3 in ('sat', 'unsat'):
+            return idx, r3, t, None, 'cvc5(second try)'
     return idx, r, t, model, backend
 
 
